@@ -736,6 +736,20 @@ impl fmt::Display for MuxerError {
 }
 
 impl std::error::Error for MuxerError {}
+
+/// Convert seconds to media-timescale ticks, refusing values that do not fit in 64 bits
+/// (the `as u64` cast would silently saturate them).
+fn seconds_to_ticks(secs: f64) -> Result<u64, MuxerError> {
+    let scaled = (secs * MEDIA_TIMESCALE as f64).round();
+    if scaled >= u64::MAX as f64 {
+        return Err(MuxerError::Io(std::io::Error::new(
+            std::io::ErrorKind::InvalidData,
+            "timestamp out of range",
+        )));
+    }
+    Ok(scaled as u64)
+}
+
 impl<Writer: Write> Muxer<Writer> {
     /// Write a video frame to the container.
     ///
@@ -778,8 +792,7 @@ impl<Writer: Write> Muxer<Writer> {
             }
         }
 
-        let scaled_pts = (pts * MEDIA_TIMESCALE as f64).round();
-        let pts_units = scaled_pts as u64;
+        let pts_units = seconds_to_ticks(pts)?;
 
         self.writer
             .write_video_sample(pts_units, data, is_keyframe)
@@ -859,10 +872,8 @@ impl<Writer: Write> Muxer<Writer> {
             }
         }
 
-        let scaled_pts = (pts * MEDIA_TIMESCALE as f64).round();
-        let pts_units = scaled_pts as u64;
-        let scaled_dts = (dts * MEDIA_TIMESCALE as f64).round();
-        let dts_units = scaled_dts as u64;
+        let pts_units = seconds_to_ticks(pts)?;
+        let dts_units = seconds_to_ticks(dts)?;
 
         self.writer
             .write_video_sample_with_dts(pts_units, dts_units, data, is_keyframe)
@@ -964,8 +975,7 @@ impl<Writer: Write> Muxer<Writer> {
             });
         }
 
-        let scaled_pts = (pts * MEDIA_TIMESCALE as f64).round();
-        let pts_units = scaled_pts as u64;
+        let pts_units = seconds_to_ticks(pts)?;
 
         self.writer
             .write_audio_sample(pts_units, data)
